@@ -745,13 +745,30 @@ func (l *Lowerer) lowerStruct(s *parser.StructDecl) error {
 	return nil
 }
 
+// parseAttrUint parses the integer-literal argument of an attribute (@group, @binding, @location,
+// @align, @size, @workgroup_size, ...): decimal or hexadecimal, with an optional `i` / `u` suffix.
+func parseAttrUint(text string) (uint32, bool) {
+	s := text
+	if n := len(s); n > 0 && (s[n-1] == 'u' || s[n-1] == 'i') {
+		s = s[:n-1]
+	}
+	base := 10
+	if len(s) > 2 && s[0] == '0' && (s[1] == 'x' || s[1] == 'X') {
+		s, base = s[2:], 16
+	}
+	v, err := strconv.ParseUint(s, base, 32)
+	if err != nil {
+		return 0, false
+	}
+	return uint32(v), true
+}
+
 // getAlignAttribute extracts the value from an @align(N) attribute, returns 0 if not found.
 func getAlignAttribute(attrs []parser.Attribute) uint32 {
 	for _, attr := range attrs {
 		if attr.Name == "align" && len(attr.Args) == 1 {
 			if lit, ok := attr.Args[0].(*parser.Literal); ok {
-				var val uint32
-				if _, err := fmt.Sscanf(lit.Value, "%d", &val); err == nil {
+				if val, ok := parseAttrUint(lit.Value); ok {
 					return val
 				}
 			}
@@ -765,8 +782,7 @@ func getSizeAttribute(attrs []parser.Attribute) uint32 {
 	for _, attr := range attrs {
 		if attr.Name == "size" && len(attr.Args) == 1 {
 			if lit, ok := attr.Args[0].(*parser.Literal); ok {
-				var val uint32
-				if _, err := fmt.Sscanf(lit.Value, "%d", &val); err == nil {
+				if val, ok := parseAttrUint(lit.Value); ok {
 					return val
 				}
 			}
@@ -901,7 +917,7 @@ func (l *Lowerer) lowerGlobalVar(v *parser.VarDecl) error {
 	for _, attr := range v.Attributes {
 		if attr.Name == "group" && len(attr.Args) > 0 {
 			if lit, ok := attr.Args[0].(*parser.Literal); ok {
-				group, _ := strconv.ParseUint(lit.Value, 10, 32)
+				group, _ := parseAttrUint(lit.Value)
 				if binding == nil {
 					binding = &ir.ResourceBinding{}
 				}
@@ -911,7 +927,7 @@ func (l *Lowerer) lowerGlobalVar(v *parser.VarDecl) error {
 		}
 		if attr.Name == "binding" && len(attr.Args) > 0 {
 			if lit, ok := attr.Args[0].(*parser.Literal); ok {
-				bind, _ := strconv.ParseUint(lit.Value, 10, 32)
+				bind, _ := parseAttrUint(lit.Value)
 				if binding == nil {
 					binding = &ir.ResourceBinding{}
 				}
@@ -13010,7 +13026,7 @@ func (l *Lowerer) collectBinding(attrs []parser.Attribute) *ir.Binding {
 		case "location":
 			if len(attr.Args) > 0 {
 				if lit, ok := attr.Args[0].(*parser.Literal); ok {
-					loc, _ := strconv.ParseUint(lit.Value, 10, 32)
+					loc, _ := parseAttrUint(lit.Value)
 					if locBinding == nil {
 						locBinding = &ir.LocationBinding{}
 					}
@@ -13020,7 +13036,7 @@ func (l *Lowerer) collectBinding(attrs []parser.Attribute) *ir.Binding {
 		case "blend_src":
 			if len(attr.Args) > 0 {
 				if lit, ok := attr.Args[0].(*parser.Literal); ok {
-					idx, _ := strconv.ParseUint(lit.Value, 10, 32)
+					idx, _ := parseAttrUint(lit.Value)
 					if locBinding == nil {
 						locBinding = &ir.LocationBinding{}
 					}
@@ -13251,12 +13267,8 @@ func (l *Lowerer) extractWorkgroupSize(attrs []parser.Attribute) [3]uint32 {
 func (l *Lowerer) evalConstU32Expr(expr parser.Expr) (uint32, bool) {
 	switch e := expr.(type) {
 	case *parser.Literal:
-		if val, err := strconv.ParseUint(e.Value, 10, 32); err == nil {
-			return uint32(val), true
-		}
-		// Try parsing as signed
-		if val, err := strconv.ParseInt(e.Value, 10, 32); err == nil && val >= 0 {
-			return uint32(val), true
+		if val, ok := parseAttrUint(e.Value); ok {
+			return val, true
 		}
 	case *parser.Ident:
 		// Look up named constant
